@@ -60,8 +60,11 @@ theorem C16_fsm_decisions_accepted :
     ∀ d ∈ Supv.Gen.fsmDecisions, ∀ t ∈ d.2.1, t = d.1 ∨ t ∈ (((Supv.Gen.fsmTable.find? (·.1 == d.1)).map (·.2)).getD []) := by
   decide
 
-/-- **C16, the status synthesis never raises** (restated from C11): for every admissible history of reports, losses, removals,
-    forced states over any number of instances the synthesis returns a status (no `KeyError` / `ValueError`). -/
+/-- **C16, the status synthesis never raises** (restated from C11): for every history of reports, losses, removals, forced states
+    over any number of instances the synthesis returns a status (no `KeyError` / `ValueError`).  `HistOk` only asks that an update
+    or a removal concerns an instance that has an entry - what `Context.check_process` guarantees before the status is touched;
+    the two classes of histories it used to exclude (an instance lost while its copy is only STOPPING, an entry removed while
+    still listed) raise no more since the repairs a0ba3bf / 958c9f3. -/
 theorem C16_synthesis_never_raises (h : List (Nat × Supv.Proc.POp)) (hok : Supv.Props.C11.HistOk (fun _ => Supv.Spec.C11.View.init) h) :
     ∃ p, Supv.Proc.prun {} h = .ok p := by
   obtain ⟨p, hp, _⟩ := Supv.Props.C11.C11_listed_iff_spec_partial h hok
